@@ -359,7 +359,9 @@ void pbt_run(const Case& cs, Ctx& ctx) {
         if (dirsOnly && !isDir) continue;
         want.push_back(std::make_pair(n, isDir));
       }
-      if (dirsOnly && dirLinkHit && ctx.excluded("C19-dirsonly-skips-dirlinks")) continue;
+      // Whether dirsOnly lists symbolic links to directories is not part of the statement (the library omits them,
+      // although it reports them as directories when dirsOnly is off): not compared.
+      if (dirsOnly && dirLinkHit) { ctx.count("unspecified:dirsOnly-dirlink"); continue; }
       std::string call = "Directory::open(\"" + path + "\", \"" + pat + "\", " + (dirsOnly ? "true" : "false") + ")";
       {
         Directory dir;
